@@ -854,7 +854,7 @@ fn nest_cases(shape: &str, key: &str, thorough: bool) -> Vec<Case> {
 // =============================================================================================
 // (vi) mapfile texts
 
-const MAP_TPLS: &[&str] = &["anm12", "ecl06", "msg12"];
+const MAP_TPLS: &[&str] = &["anm12", "ecl06", "msg12", "ecl07"];
 
 fn magic_of(kind: Kind) -> &'static str { match kind { Kind::Anm => "!anmmap", Kind::Std => "!stdmap", Kind::Msg | Kind::Mission => "!msgmap", Kind::End => "!endmap", Kind::Ecl => "!eclmap" } }
 
@@ -976,6 +976,44 @@ fn map_cases(sub: &str, key: &str) -> Vec<Case> {
                 if i < b.len() {
                     let mut j = i + 1; while !vm.is_char_boundary(j) { j += 1; }
                     push(body, format!("{}{}", &vm[..i], &vm[j..]), format!("delete byte {i}"));
+                }
+            }
+        },
+        // a user mapfile that re-declares one of the game's BUILT-IN intrinsic opcodes (other signature, other intrinsic),
+        // then sugar that the built-in table would have compiled to that opcode
+        "coreintr" => {
+            if !t.has_regs() { return out; }
+            let lang = if t.kind == Kind::Ecl { truth::LanguageKey::Ecl } else { truth::LanguageKey::Anm };
+            let core: Vec<(i32, String)> = {
+                let mut scope = truth::Builder::new().capture_diagnostics(true).build();
+                let mut truth = scope.truth();
+                let m = truth::verif_hooks::core_mapfile(truth.ctx().emitter, game(t.game), lang);
+                m.ins_intrinsics.iter().map(|(k, v)| (*k, v.value.clone())).collect()
+            };
+            // one opcode per intrinsic kind (the first of each kind name)
+            let mut seen_kinds = std::collections::BTreeSet::new();
+            let ops: Vec<(i32, String)> = core.into_iter().filter(|(_, v)| seen_kinds.insert(v.split('(').next().unwrap_or("").to_string())).collect();
+            let (ri, rf) = (format!("$REG[{}]", t.ireg), format!("%REG[{}]", t.freg));
+            let body = format!("{ri} = {ri} + {ri};\n    {ri} += 2;\n    {ri} = 3;\n    {rf} = {rf} * 2.0;\nl:\n    if ({ri} == 1) goto l;\n    times(2) {{ {ri} = -{ri}; }}\n    goto l;");
+            for (op, was) in &ops {
+                for intr in ["Jmp()", "CountJmp()", "BinOp(op=\"+\"; type=\"int\")", "BinOp(op=\"-\"; type=\"float\")", "AssignOp(op=\"=\"; type=\"int\")", "AssignOp(op=\"+=\"; type=\"int\")", "UnOp(op=\"-\"; type=\"int\")",
+                    "CondJmp(op=\"==\"; type=\"int\")", "CondJmp(op=\"<\"; type=\"float\")", "InterruptLabel()", "CondJmp2A(type=\"int\")", "CondJmp2B(op=\"==\")"] {
+                    for sig in ["", "S", "SS", "SSS", "ff", "fff", "ot", "to", "Sot", "SSot", "ffot", "SS(imm)S"] {
+                        push(&body, format!("{magic}\n!ins_signatures\n{op} {sig}\n!ins_intrinsics\n{op} {intr}\n"), format!("core opcode {op} ({}) re-declared as `{intr}` with signature `{sig}`", was.split('(').next().unwrap_or("")));
+                    }
+                }
+                // signature only / intrinsic only
+                for sig in ["", "S", "ot", "fff", "z(bs=4)"] { push(&body, format!("{magic}\n!ins_signatures\n{op} {sig}\n"), format!("core opcode {op} gets signature `{sig}` only")); }
+                for intr in ["Jmp()", "BinOp(op=\"+\"; type=\"int\")"] { push(&body, format!("{magic}\n!ins_intrinsics\n{op} {intr}\n"), format!("core opcode {op} gets intrinsic `{intr}` only")); }
+            }
+        },
+        // timeof / offsetof of a label in arguments of every width, with label times around every width's edges
+        "labelarg" => {
+            for letter in ["S", "s", "u", "b", "c", "U", "f", "S(imm)", "s(imm)", "n", "o", "t"] {
+                for time in ["0", "127", "128", "255", "256", "32767", "32768", "65535", "65536", "70000", "2147483647", "-1", "-128", "-129", "-32768", "-32769", "-2147483648"] {
+                    for what in ["timeof(lbl)", "offsetof(lbl)", "timeof(lbl) + 1", "-timeof(lbl)"] {
+                        push(&format!("ins_2000({what});\n{time}:\nlbl:\n    ins_2004();"), format!("{magic}\n!ins_signatures\n2000 {letter}\n2004 \n"), format!("`{what}` in a `{letter}` argument, label time {time}"));
+                    }
                 }
             }
         },
@@ -1200,7 +1238,7 @@ fn other_items(thorough: bool) -> Vec<String> {
     // small chunks: the inputs that make truth hang or abort cost two timeouts each and should not queue up behind one another
     for k in LIT_TPLS.iter().chain(["mission095"].iter()) { for c in 0..(lit_cases(k).len() + LIT_CHUNK - 1) / LIT_CHUNK { v.push(format!("lit:{k}:{c}")); } }
     for sh in NEST_SHAPES { for k in nest_tpls(sh) { v.push(format!("nest:{sh}:{k}")); } }
-    for sub in ["num", "hdr", "del", "byte", "attr", "intr", "diff", "enum"] { for k in MAP_TPLS { v.push(format!("map:{sub}:{k}")); } }
+    for sub in ["num", "hdr", "del", "byte", "attr", "intr", "diff", "enum", "coreintr", "labelarg"] { for k in MAP_TPLS { v.push(format!("map:{sub}:{k}")); } }
     for k in MAP_TPLS { for var in 0..SIG_VARIANTS.len() { v.push(format!("map:sig{var}:{k}")); } }
     if thorough { for k in MAP_TPLS { v.push(format!("map:sig3:{k}")); } }
     for k in LATE_TPLS {
